@@ -126,6 +126,8 @@ def file_into(rep: Report, prop: str, tier: str, kinds=None, only=None, all_cont
     res = run_all(tier)
     base = load_baseline()
     n = 0
+    rep.assume("E1 heap model: distinct object-valued parameters (and their object-valued fields) denote distinct objects -- no aliasing between arguments; "
+               "objects returned by calls under contract and loop-carried objects have unconstrained identity")
     for name, c in REGISTRY.items():
         if prop not in c.properties and not all_contracts:
             continue
